@@ -168,6 +168,17 @@ func Judge(res *kit.Result, pkg *opc.Package, base *opc.Package, where string) *
 		return sum
 	}
 
+	// a glossary document (named by a glossaryDocument relationship of the main document) is a document of its own:
+	// it carries its own styles / settings / fontTable relationships and is a story part as well
+	glossary := map[string]bool{}
+	for _, r := range pkg.RelsOf(main) {
+		if kindOf(r.Type) == "glossaryDocument" && !r.External() {
+			if _, ok := pkg.Parts[r.Resolved]; ok && r.Resolved != main {
+				glossary[r.Resolved] = true
+			}
+		}
+	}
+
 	// R3: attachment.
 	res.Eval("C02.R3")
 	for _, rp := range relParts {
@@ -189,7 +200,7 @@ func Judge(res *kit.Result, pkg *opc.Package, base *opc.Package, where string) *
 			case rootKinds[k]:
 				res.Fail("C02.R3", "%s: part=%s id=%s kind=%s is a package-level relationship attached to %q", where, rp, r.ID, k, src)
 			case docOnlyKinds[k]:
-				if src != main {
+				if src != main && !(glossary[src] && k != "header" && k != "footer") {
 					res.Fail("C02.R3", "%s: part=%s id=%s kind=%s is attached to %q, not to the main document %q", where, rp, r.ID, k, src, main)
 				}
 			case storyKinds[k]:
@@ -211,7 +222,7 @@ func Judge(res *kit.Result, pkg *opc.Package, base *opc.Package, where string) *
 	seenStory := map[string]bool{main: true}
 	for _, r := range pkg.RelsOf(main) {
 		switch kindOf(r.Type) {
-		case "header", "footer", "footnotes", "endnotes":
+		case "header", "footer", "footnotes", "endnotes", "glossaryDocument":
 			if _, ok := pkg.Parts[r.Resolved]; ok && !r.External() && !seenStory[r.Resolved] {
 				seenStory[r.Resolved] = true
 				story = append(story, r.Resolved)
